@@ -7,6 +7,7 @@ import (
 	"os"
 	"path/filepath"
 	"strings"
+	"syscall"
 	"testing"
 	"time"
 
@@ -38,6 +39,17 @@ type SrvQuery struct {
 }
 
 var srvECS = []string{"10.1.9.0/24", "10.2.9.0/24", "198.51.100.0/24", "2001:db8:1::/48"}
+
+// SrvStall keeps one query parked at one of the handler's yield points for a while (a slow or
+// descheduled handler goroutine), so that whole reloads fit between two of its steps.
+type SrvStall struct {
+	Client int `json:"client"`
+	Query  int `json:"query"`
+	Point  int `json:"point"` // index into srvStallPoints
+	Ms     int `json:"ms"`
+}
+
+var srvStallPoints = []string{"serve.acquired", "serve.located", "serve.authoritative", "serve.answered", "serve.authority", "serve.cache.insert", "serve.written"}
 
 // SrvOp is one operator step.
 type SrvOp struct {
@@ -114,7 +126,8 @@ type SrvScenario struct {
 	// Signals are partial-reload signals sent through ReloadChan by a task of their own, the way
 	// Server.ReloadDB (SIGHUP) does: each after the given pause in ms, whatever the operator is doing
 	// (needs ViaChan)
-	Signals []int `json:"signals,omitempty"`
+	Signals []int      `json:"signals,omitempty"`
+	Stalls  []SrvStall `json:"stalls,omitempty"`
 	// Proc: the handler lives in a real fbserver.Server as in cmd/dnsrocks: reload requests travel as
 	// files plus file-system events through the real watcher loops (on simulated event channels), as
 	// SIGHUP through Server.ReloadDB; Server.LogMapAge and Server.DumpBackendStats run on their tickers;
@@ -125,9 +138,14 @@ type SrvScenario struct {
 	// directory) delivers an error, as inotify does on a queue overflow
 	WatchErrMs int `json:"watch_err_ms,omitempty"`
 	WatchErrOn int `json:"watch_err_on,omitempty"`
-	Tape     []uint8 `json:"tape"`
-	TapeSeed uint64  `json:"tape_seed"`
-	Calm     int     `json:"calm"`
+	// CleanupFails: the control path of the configuration is not a directory, so that removing the
+	// processed control file fails (ENOTDIR) at the very end of every otherwise successful reload,
+	// which then reports an error although the switch has been made. Only for checks that do not
+	// judge what a reload's return value means (C06, C14).
+	CleanupFails bool    `json:"cleanup_fails,omitempty"`
+	Tape         []uint8 `json:"tape"`
+	TapeSeed     uint64  `json:"tape_seed"`
+	Calm         int     `json:"calm"`
 }
 
 // QRec is the record of one query.
@@ -294,6 +312,25 @@ func runSrv(t *testing.T, sc *SrvScenario, keep bool, res *core.Result, hooks *s
 	rst := hooks.stats
 	logger := &recLogger{st: rst}
 	opt := sched.Options{Tape: sc.Tape, TapeSeed: sc.TapeSeed, Calm: sc.Calm, KeepSchedule: keep, MaxSteps: 60000}
+	curQuery := make([]int, len(sc.Clients)) // index of the query each client is serving (-1: none)
+	for i := range curQuery {
+		curQuery[i] = -1
+	}
+	if len(sc.Stalls) > 0 {
+		stalled := map[int]bool{}
+		opt.StallAt = func(task, point string) time.Duration {
+			for si, st := range sc.Stalls {
+				if stalled[si] || st.Client >= len(curQuery) || task != fmt.Sprintf("client%d", st.Client) ||
+					curQuery[st.Client] != st.Query || point != srvStallPoints[st.Point%len(srvStallPoints)] {
+					continue
+				}
+				stalled[si] = true
+				res.Fault("query-stalled")
+				return time.Duration(st.Ms) * time.Millisecond
+			}
+			return 0
+		}
+	}
 	sched.Bubble(t, opt, func(s *sched.Sim) {
 		h.Sim = s
 		m := mon.New(s)
@@ -307,6 +344,15 @@ func runSrv(t *testing.T, sc *SrvScenario, keep bool, res *core.Result, hooks *s
 		dbc := dnsserver.DBConfig{Path: p0, Driver: srvDriver(sc.Backend), ReloadTimeout: time.Duration(sc.TimeoutMs) * time.Millisecond,
 			ValidationKey: gen.ValidationKey(w.v2)}
 		cc := dnsserver.CacheConfig{Enabled: sc.Cache, LRUSize: sc.LRUSize, WRSTimeout: int64(sc.WRSTimeout)}
+		notADir := filepath.Join(dir, "control-path-is-a-file")
+		if sc.CleanupFails {
+			if err := os.WriteFile(notADir, []byte("x"), 0o644); err != nil {
+				res.HarnessErr = err.Error()
+				return
+			}
+			dbc.ControlPath = notADir
+			res.Fault("control-file-cleanup-fails")
+		}
 		var fb *dnsserver.FBDNSDB
 		var srv *fbserver.Server
 		var inner db.DBI
@@ -318,7 +364,9 @@ func runSrv(t *testing.T, sc *SrvScenario, keep bool, res *core.Result, hooks *s
 				return
 			}
 			conf := fbserver.NewServerConfig()
-			dbc.ControlPath = ctlDir
+			if !sc.CleanupFails {
+				dbc.ControlPath = ctlDir // else the control files still live in ctlDir: the watcher loop takes their names from the events
+			}
 			conf.DBConfig, conf.CacheConfig = dbc, cc
 			// NewServer builds the handler (with its ReloadChan loop) and opens the database, as in cmd/dnsrocks
 			srv = fbserver.NewServer(conf, logger, rst, nullExporter{})
@@ -389,7 +437,9 @@ func runSrv(t *testing.T, sc *SrvScenario, keep bool, res *core.Result, hooks *s
 					inflight++
 					rst.begin(rec)
 					rec.Inv = s.Seq()
+					curQuery[ci] = qi
 					rec.Rcode, rec.Err = fb.ServeDNS(context.Background(), wr, rec.Req.Copy())
+					curQuery[ci] = -1
 					rec.Ret = s.Seq()
 					rst.end(rec)
 					inflight--
@@ -768,6 +818,13 @@ func runSrv(t *testing.T, sc *SrvScenario, keep bool, res *core.Result, hooks *s
 				} else {
 					rec.Err = fb.Reload(sig)
 					rec.OK = rec.Err == nil
+					if sc.CleanupFails && errors.Is(rec.Err, syscall.ENOTDIR) {
+						// everything but the removal of the control file succeeded: the switch has been made
+						// (database, path, cache purge), only the acknowledgement failed. For the oracles this
+						// reload has completed.
+						rec.OK, rec.Err = true, nil
+						res.Probe("reload_completed_but_cleanup_failed")
+					}
 				}
 				rec.Ret = s.Seq()
 				rec.Done = true
@@ -874,6 +931,10 @@ type srvDrawOpts struct {
 	ecs        bool
 	badvers    bool
 	proc       int // one run in proc is a proc-mode run (0 = never)
+	cleanup    bool
+	// cleanupDirect: as cleanup, but only in runs whose operator calls Reload itself, so that the
+	// error it returns can be told from any other (checks that judge generations)
+	cleanupDirect bool
 }
 
 func drawSrv(rt *rapid.T, o srvDrawOpts) SrvScenario {
@@ -974,6 +1035,18 @@ func drawSrv(rt *rapid.T, o srvDrawOpts) SrvScenario {
 			sc.WatchErrOn = rapid.IntRange(0, 1).Draw(rt, "watch_err_on")
 		}
 	}
+	if rapid.Bool().Draw(rt, "stalls") {
+		sc.Stalls = rapid.SliceOfN(rapid.Custom(func(rt *rapid.T) SrvStall {
+			return SrvStall{Client: rapid.IntRange(0, len(sc.Clients)-1).Draw(rt, "client"), Query: rapid.IntRange(0, 2).Draw(rt, "query"),
+				Point: rapid.IntRange(0, len(srvStallPoints)-1).Draw(rt, "point"), Ms: rapid.SampledFrom([]int{9, 37, 73, 311}).Draw(rt, "ms")}
+		}), 1, 3).Draw(rt, "stall_list")
+	}
+	if o.cleanup && rapid.IntRange(0, 5).Draw(rt, "cleanup_fails") == 0 {
+		sc.CleanupFails = true
+	}
+	if o.cleanupDirect && !sc.ViaChan && !sc.Proc && rapid.IntRange(0, 5).Draw(rt, "cleanup_fails") == 0 {
+		sc.CleanupFails = true
+	}
 	sc.Tape = rapid.SliceOfN(rapid.Uint8(), 0, 160).Draw(rt, "tape")
 	return sc
 }
@@ -993,5 +1066,5 @@ func summarySrv(sc SrvScenario) interface{} {
 		cl = append(cl, strings.Join(s, " "))
 	}
 	return map[string]interface{}{"backend": sc.Backend, "cache": sc.Cache, "lru": sc.LRUSize, "operator": ops, "clients": cl,
-		"via_chan": sc.ViaChan, "proc": sc.Proc, "fs_noise": len(sc.FsNoise), "watch_err_ms": sc.WatchErrMs, "periodic_s": sc.PeriodicS, "async_signals": len(sc.Signals), "tape_len": len(sc.Tape)}
+		"via_chan": sc.ViaChan, "stalled_queries": len(sc.Stalls), "proc": sc.Proc, "cleanup_fails": sc.CleanupFails, "fs_noise": len(sc.FsNoise), "watch_err_ms": sc.WatchErrMs, "periodic_s": sc.PeriodicS, "async_signals": len(sc.Signals), "tape_len": len(sc.Tape)}
 }
